@@ -24,8 +24,14 @@ class Anon:
         return _SQ.sub(rep, s)
 
 
+_PLAIN = re.compile(r"^[A-Za-z_][A-Za-z0-9_$#@]*$|^\*$")
+EXPR_PLACEHOLDER = [False]  # C07: the display name of an un-aliased expression column follows the expression's text
+
+
 def col_str(c, anon) -> str:
     """resolved column -> 'owner.col'; unresolved -> '?col[cand|cand]'"""
+    if EXPR_PLACEHOLDER[0] and not _PLAIN.match(c.raw_name):
+        return anon(f"{c.parent}.<expr>") if c.parent is not None else "<expr>"
     if c.parent is not None or len(c.parent_candidates) == 0:
         return anon(str(c))
     return "?" + c.raw_name + "[" + "|".join(sorted(anon(str(p)) for p in c.parent_candidates)) + "]"
